@@ -74,7 +74,19 @@ class StateGuard:
         self.extra = list(extra_objects)  # (obj, label): instances whose attributes are part of the frame
         self.snap = None
 
+    def _index(self, v, top, depth=0):
+        if depth > 6 or not isinstance(v, (dict, list, bytearray, set, tuple)):
+            return
+        self.nested[id(v)] = top
+        if isinstance(v, dict):
+            for x in v.values():
+                self._index(x, top, depth + 1)
+        elif isinstance(v, (list, tuple)):
+            for x in v:
+                self._index(x, top, depth + 1)
+
     def snapshot(self):
+        self.nested = {}  # id of any (nested) container of the watched state -> (owner index, attribute)
         snap = []
         for owner, label in self.owners + self.extra:
             ns = dict(vars(owner))
@@ -86,27 +98,42 @@ class StateGuard:
                     rec[k] = (v, ("obj", id(v)), None)
                 else:
                     rec[k] = (v, _freeze(v), _copy(v) if isinstance(v, _CONTAINERS) else None)
+                    self._index(v, (len(snap), k))
             snap.append((owner, label, rec))
         self.snap = snap
 
-    def diff(self):
-        """list of (label, attribute, kind) for everything that differs from the snapshot"""
+    def diff(self, written=None):
+        """list of (label, attribute, kind) for everything that differs from the snapshot.
+        written=None: full comparison (bindings and deep contents).  written=iterable of objects the interpreter
+        stored into: bindings are compared for everything, deep contents only for containers of the watched
+        state among them (mutations performed by native code are found by the full comparison at the end)."""
         out = []
-        for owner, label, rec in self.snap:
+        deep = None
+        if written is not None:
+            deep = set()
+            for obj in written:
+                t = self.nested.get(id(obj))
+                if t is not None:
+                    deep.add(t)
+        for oi, (owner, label, rec) in enumerate(self.snap):
             ns = vars(owner)
             for k, (v, frozen, _) in rec.items():
-                if k not in ns:
+                cur = ns.get(k, _MISSING)
+                if cur is _MISSING:
                     out.append((label, k, "deleted"))
-                elif ns[k] is not v:
+                elif cur is not v:
                     out.append((label, k, "rebound"))
-                elif _freeze(ns[k]) != frozen:
+                elif (deep is None or (oi, k) in deep) and frozen.__class__ is tuple and _freeze(cur) != frozen:
                     out.append((label, k, "mutated"))
-            for k in ns:
-                if k not in rec and k not in ("__builtins__", "__dict__", "__weakref__"):
-                    out.append((label, k, "added"))
+            if len(ns) != len(rec):
+                for k in ns:
+                    if k not in rec and k not in ("__builtins__", "__dict__", "__weakref__"):
+                        out.append((label, k, "added"))
         return out
 
-    def restore(self):
+    def restore(self, diffs=None):
+        if diffs is not None and not diffs:
+            return
         for owner, label, rec in self.snap:
             ns = vars(owner)
             for k in list(ns.keys()):
